@@ -3,6 +3,7 @@ import json
 import os
 
 from . import extract
+from . import renorm
 
 
 def _freeze_ty(tab, raw, i, memo):
@@ -71,11 +72,17 @@ class Program(object):
         self.statics = {}
         self.impls = []  # dicts: trait, trait_args, self_ty, items{trait_item: impl_item}
         self.crates = []
-        for c in crates or extract.CONFIG_CRATES[tag]:
+        texts = {}
+        order = list(crates or extract.CONFIG_CRATES[tag])
+        for c in order:
             p = os.path.join(d, "%s.%s.json" % (c, tag))
             with open(p) as fh:
-                raw = json.load(fh)
-            self._add(raw)
+                texts[c] = fh.read()
+        # items renamed / moved since the reference tree are given their reference names back (zx/renorm.py)
+        raws = renorm.normalise_all(texts, tag)
+        self.renames = [r for r in renorm.APPLIED if r[0] == tag]
+        for c in order:
+            self._add(raws[c])
         self._impl_ix = {}
         for im in self.impls:
             for ti, ii in im["items"].items():
